@@ -180,15 +180,19 @@ impl Stats {
 pub struct Exec {
     pub h: History,
     pub alts: Vec<History>,
+    pub multi: Option<crate::multi::MultiOutcome>,
 }
 
 pub fn execute(case: &Case) -> Exec {
     match case.kind.as_str() {
-        "multi" => Exec { h: History::default(), alts: vec![] },
+        "multi" => {
+            let out = case.multi.as_ref().map(crate::multi::run_multi);
+            Exec { h: History::default(), alts: vec![], multi: out }
+        }
         _ => {
             let h = world::run_cli(&case.scn);
             let alts = case.alts.iter().map(|a| world::run_cli(&a.scn)).collect();
-            Exec { h, alts }
+            Exec { h, alts, multi: None }
         }
     }
 }
@@ -225,6 +229,12 @@ fn normalise_panic_classes(v: &mut Vec<Violation>, h: &History) {
 }
 
 pub fn judge(case: &Case, ex: &Exec) -> Result<Vec<Violation>, String> {
+    if case.kind == "multi" {
+        let mut v = ex.multi.as_ref().map(|m| m.viols.clone()).unwrap_or_default();
+        let mut seen = BTreeSet::new();
+        v.retain(|x| seen.insert(x.class.clone()));
+        return Ok(v);
+    }
     // simulator self-checks first: a failure here is a harness error, never a verdict
     world::self_check(&ex.h)?;
     for a in &ex.alts {
@@ -235,6 +245,7 @@ pub fn judge(case: &Case, ex: &Exec) -> Result<Vec<Violation>, String> {
         ("C16", _) => oracle::check_c16(case, &ex.h),
         ("C17", _) => oracle::check_c17(case, &ex.h, &ex.alts),
         ("C18", _) => oracle::check_c18(case, &ex.h),
+        ("C19", "env") => crate::c19::judge_env(case, ex),
         _ => vec![],
     };
     normalise_panic_classes(&mut v, &ex.h);
